@@ -102,9 +102,28 @@ LabelCycles ==
 \* in a generated reply: the pointer that follows a one-byte label ("e" + pointer of the CC record) points back at that label
 PtrLabelLoops(d) == {T("ptr-label-loop", Set(d, o + 1, o - 2)) : o \in {x \in RealPtrs(d) : x >= 14 /\ B(d, x - 2) = 1 /\ B(d, x - 1) >= 97}}
 
+\* ---- LARGE replies: a TXT record with long rdata (skipped by the parser) pushes the following names to offset H >= 1024;
+\* a CNAME name is then compressed with a pointer to H and an owner name with a pointer to H + 3, so that a decoder that
+\* drops high bits of the 14-bit offset reads at H mod 256 / 512 / 1024 / 2048 - where the padding holds a DIFFERENT
+\* valid name ("lo") wherever that position lies inside it (junk '!' elsewhere).
+\* layout: header 12, question 10, TXT record header 12 (rdata at 34, length P = H - 46), CNAME record header 12, rdata at H
+DecoyName == <<2, 108, 111, 0>>                                            \* "lo"
+PadByte(H, o) ==                                                           \* byte of the padding at datagram offset o
+  LET hit == {m \in {256, 512, 1024, 2048} : (H % m) >= 34 /\ (H % m) + 4 <= H - 12 /\ o >= (H % m) /\ o < (H % m) + 4 /\ (H % m) # H}
+  IN IF hit = {} THEN 33 ELSE LET mm == CHOOSE y \in hit : \A x \in hit : y <= x IN DecoyName[o - (H % mm) + 1]
+LargeReply(H) ==
+  LET P == H - 46 IN
+  Hdr(33152, 1, 4, 0, 0) \o Question
+  \o SubSeq(RecHdr(PtrQ, 16, <<0, 0, 0, 9>>, 0), 1, 10) \o <<P \div 256, P % 256>> \o [i \in 1..P |-> PadByte(H, 33 + i)]
+  \o RecHdr(PtrQ, 5, <<0, 0, 0, 60>>, 7) \o <<2, 104, 105, 2, 98, 99, 0>>                        \* "hi.bc" literal at H
+  \o RecHdr(PtrQ, 5, <<0, 0, 2, 88>>, 4) \o <<1, 101, 192 + H \div 256, H % 256>>                 \* "e" + pointer to H
+  \o RecHdr(<<192 + (H + 3) \div 256, (H + 3) % 256>>, 1, <<0, 0, 0, 7>>, 4) \o <<10, 9, 8, 7>>   \* owner = pointer to "bc" at H + 3
+LargeHs == {1024, 1027, 1300, 2053, 3075, 4057}                            \* 4057: the datagram is exactly 4096 bytes
+Larges == {T("large", LargeReply(H)) : H \in LargeHs}
+
 \* everything derived from one record list
 Family(ks) ==
   LET g == Good(ks) IN
   {T("good", g)} \cup Truncs(g) \cup Counts(g) \cup PtrMuts(g) \cup PtrLabelLoops(g) \cup LabelMuts(g) \cup RdMuts(g) \cup FlagMuts(ks) \cup Extras(ks)
-All(n) == LabelCycles \cup UNION {Family(ks) : ks \in Lists(n)}
+All(n) == LabelCycles \cup Larges \cup UNION {Family(ks) : ks \in Lists(n)}
 =============================================================================
